@@ -485,6 +485,26 @@ impl ProtocolSet {
     }
 }
 
+/// Verification hooks: public wrappers of the crate-private connection reports.
+#[cfg(feature = "verif")]
+impl ProtocolSet {
+    pub async fn verif_report_connection_established(
+        &mut self,
+        peer: PeerId,
+        endpoint: Endpoint,
+    ) -> crate::Result<()> {
+        self.report_connection_established(peer, endpoint).await
+    }
+
+    pub async fn verif_report_connection_closed(
+        &mut self,
+        peer: PeerId,
+        connection_id: ConnectionId,
+    ) -> crate::Result<()> {
+        self.report_connection_closed(peer, connection_id).await
+    }
+}
+
 impl Stream for ProtocolSet {
     type Item = ProtocolCommand;
 
